@@ -27,6 +27,18 @@ for fn, n in (('get_int', 4), ('get_timetag', 8)):
              note='never reads past the end: too short a datagram is a parse error')
 
 
+for fn, n, exc in (('get_double', 8, 'OscParseError'), ('get_rgba', 4, 'OscTypeParseError')):
+    contract(F, fn, props=('C18', 'C06'),
+             params={'dgram': 'bytes', 'start_index': 'int'},
+             requires=lambda c: c.start_index >= 0,
+             raises={exc: (lambda n: lambda c: remaining(c) < n)(n)},
+             ensures=[('consumes-exactly-%d-bytes' % n, (lambda n: lambda c: z3.And(
+                 z3.BoolVal(c.resultv.k == 'tuple' and len(c.resultv.items) == 2),
+                 c.resultv.items[1].z == c.start_index + n,
+                 c.start_index + n <= c.blen(c.dgram)))(n))],
+             note='never reads past the end: too short a datagram is a parse error')
+
+
 def may_fail(name, exc):
     def pol(eng, selfv, args, kwargs, st, node):
         bad = st.fork()
